@@ -94,6 +94,9 @@ func (g *MultiPoint) SetCoords(coords []Coord) (*MultiPoint, error) {
 			var err error
 			g.flatCoords, err = deflate0(g.flatCoords, c, g.stride)
 			if err != nil {
+				// deflate0 has dropped the coordinates; drop the ends recorded
+				// for them too, so that g is left empty rather than malformed.
+				g.ends = nil
 				return nil, err
 			}
 		}
